@@ -119,17 +119,18 @@ Definition optw (w : gstr) : list gstr := match w with [] => [] | _ => [w] end.
 Inductive cov (W : Z) : list gstr -> list gstr -> Prop :=
 | cov_nil : cov W [] []
 | cov_word w ps ws : cov W ps ws -> cov W (w :: ps) (w :: ws)
-| cov_chunk o w' ps ws : w' <> [] -> W < glen (o ++ w') -> cov W ps (w' :: ws) -> cov W ((o ++ [HYPHEN]) :: ps) ((o ++ w') :: ws).
+| cov_chunk o w' ps ws : w' <> [] -> W < glen (o ++ w') -> W <= glen (o ++ [HYPHEN]) <= W -> cov W ps (w' :: ws) -> cov W ((o ++ [HYPHEN]) :: ps) ((o ++ w') :: ws).
 
-Lemma cov_split_last W ps : forall ws o w', w' <> [] -> W < glen (o ++ w') -> cov W (ps ++ [o ++ w']) ws -> cov W (ps ++ [o ++ [HYPHEN]] ++ [w']) ws.
+Lemma cov_split_last W ps : forall ws o w', w' <> [] -> W < glen (o ++ w') -> W <= glen (o ++ [HYPHEN]) <= W ->
+  cov W (ps ++ [o ++ w']) ws -> cov W (ps ++ [o ++ [HYPHEN]] ++ [w']) ws.
 Proof.
-  induction ps as [|p ps IH]; intros ws o w' Hne Hlt Hc.
-  - cbn [app] in *. inversion Hc as [|x ps0 ws0 Hc0|o2 w2 ps0 ws0 Hne2 Hlt2 Hc0]; subst.
-    + inversion Hc0; subst. apply cov_chunk; [exact Hne|exact Hlt|]. apply cov_word. apply cov_nil.
+  induction ps as [|p ps IH]; intros ws o w' Hne Hlt Hfull Hc.
+  - cbn [app] in *. inversion Hc as [|x ps0 ws0 Hc0|o2 w2 ps0 ws0 Hne2 Hlt2 Hf2 Hc0]; subst.
+    + inversion Hc0; subst. apply cov_chunk; [exact Hne|exact Hlt|exact Hfull|]. apply cov_word. apply cov_nil.
     + inversion Hc0.
-  - cbn [app] in *. inversion Hc as [|x ps0 ws0 Hc0|o2 w2 ps0 ws0 Hne2 Hlt2 Hc0]; subst.
+  - cbn [app] in *. inversion Hc as [|x ps0 ws0 Hc0|o2 w2 ps0 ws0 Hne2 Hlt2 Hf2 Hc0]; subst.
     + apply cov_word. apply IH; assumption.
-    + apply cov_chunk; [exact Hne2|exact Hlt2|]. apply IH; assumption.
+    + apply cov_chunk; [exact Hne2|exact Hlt2|exact Hf2|]. apply IH; assumption.
 Qed.
 
 Lemma gsub_split w k : 0 <= k <= glen w -> gsub w 0 k ++ gsub w k (glen w) = w.
@@ -214,7 +215,7 @@ Proof.
         { intros _. apply link_snoc. left. cbn [ln join]. exact C2. }
         assert (A7 : cov W (concat (pss ++ [[chunk]]) ++ [] ++ optw (gsub w (W - 1) (glen w))) ws).
         { destruct C3 as (C3ne & _). assert (Eo : optw (gsub w (W - 1) (glen w)) = [gsub w (W - 1) (glen w)]) by (destruct (gsub w (W - 1) (glen w)); [congruence|reflexivity]).
-          rewrite Eo, concat_app. cbn [concat app]. rewrite <- app_assoc. unfold chunk. apply cov_split_last; [exact C3ne|rewrite (gsub_split w (W - 1)) by glia; glia|].
+          rewrite Eo, concat_app. cbn [concat app]. rewrite <- app_assoc. unfold chunk. apply cov_split_last; [exact C3ne|rewrite (gsub_split w (W - 1)) by glia; glia|unfold chunk in C2; glia|].
           rewrite (gsub_split w (W - 1)) by glia. exact Hcov. }
         exact (IH ws (pss ++ [[chunk]]) (gsub w (W - 1) (glen w)) [] r (or_intror C3) A2 A3 (Forall_nil _) (Hnone _) A6 A7 Hr).
       * (* fits *)
